@@ -6,6 +6,7 @@ package xp
 // language.  Written from the recommendations, no code shared with the repo.
 
 import (
+	"strings"
 	"unicode/utf8"
 )
 
@@ -567,7 +568,8 @@ func isPlainLocationPath(ts []rtok) bool {
 
 // RecogniseExpr decides whether s is in the supported XPath subset.
 func RecogniseExpr(s string, knownPfx func(string) bool) Verdict {
-	if s == "" || !utf8.ValidString(s) {
+	// (NUL is no character of XML or XPath text, not even inside a literal)
+	if s == "" || !utf8.ValidString(s) || strings.ContainsRune(s, 0) {
 		return Reject
 	}
 	l := &rlexer{rs: []rune(s), knownPfx: knownPfx}
@@ -753,7 +755,7 @@ func (p *pparser) absolutePath() bool {
 
 // RecognisePathArg decides RFC 6020 path-arg with optional whitespace between tokens.
 func RecognisePathArg(s string, knownPfx func(string) bool) Verdict {
-	if s == "" || !utf8.ValidString(s) {
+	if s == "" || !utf8.ValidString(s) || strings.ContainsRune(s, 0) {
 		return Reject
 	}
 	ts, v := lexPathArg(s, knownPfx)
